@@ -150,6 +150,59 @@ fn conf_case(proto: Proto) -> BoxedStrategy<ConfCase> {
   (rt_case(proto, Layer::Core), wire).prop_map(|(rt, wire_nonce)| ConfCase { rt, wire_nonce }).boxed()
 }
 
+/// v1.public with RSA keys of a size the specification does not use (3072 / 4096 bits; it prescribes 2048): whatever the
+/// library hands back as a token has to be a token of the specification - `message || 256-byte signature` that the
+/// independent implementation verifies - or signing is refused.
+#[derive(Clone, Debug, Serialize, Deserialize)]
+pub struct UnusualKeyCase {
+  which: u8,
+  msg_len: u32,
+  footer: bool,
+}
+pub struct UnusualKeys;
+impl Sub for UnusualKeys {
+  type Case = UnusualKeyCase;
+  fn name(&self) -> String {
+    "C08/v1.public-keys-of-another-size".into()
+  }
+  fn check(&self, c: &UnusualKeyCase, cl: &mut Classes) -> Verdict {
+    let (sk, pk) = keys::RSA_UNUSUAL[c.which as usize % 2];
+    let bits = if c.which % 2 == 0 { 3072 } else { 4096 };
+    let km = match KeyMaterial::new(Proto::V1P, Some(sk), pk) {
+      Ok(k) => k,
+      Err(_) => return Verdict::Discard,
+    };
+    let lk = match km.lib() {
+      Ok(k) => k,
+      Err(_) => {
+        cl.tag("key-refused");
+        return Verdict::Pass;
+      }
+    };
+    let msg = "m".repeat(c.msg_len as usize);
+    let footer = if c.footer { Some("kid") } else { None };
+    cl.tag(format!("rsa-{bits}"));
+    cl.nontrivial(true);
+    match core_build(&lk, &[0u8; 32], &msg, footer, None) {
+      Err(_) => {
+        cl.tag("signing-refused");
+        Verdict::Pass
+      }
+      Ok(token) => {
+        cl.tag("signed");
+        let body = split_token(&token).and_then(|(_, b, _)| unb64(&b)).unwrap_or_default();
+        if body.len() != msg.len() + 256 {
+          vio!("C08:not-a-token-of-the-specification:v1.public:rsa-{}", bits; "signing with an RSA-{} key returned a token whose body has {} bytes for a {}-byte message: the specification's v1.public body is message || 256-byte signature", bits, body.len(), msg.len());
+        }
+        match specref::public_verify(1, &RefPublic::Rsa(pk), &token, footer.unwrap_or("").as_bytes(), b"") {
+          Ok(m) if m == msg.as_bytes() => Verdict::Pass,
+          other => vio!("C08:ref-rejects-lib-signature:v1.public:rsa-{}", bits; "independent verification of a token signed with an RSA-{} key gave {:?}", bits, other.map(|m| m.len())),
+        }
+      }
+    }
+  }
+}
+
 fn all_subs() -> Vec<Conformance> {
   let mut v = vec![];
   for proto in Proto::ALL {
@@ -161,7 +214,9 @@ fn all_subs() -> Vec<Conformance> {
 }
 
 pub fn subs() -> Vec<Box<dyn DynSub>> {
-  all_subs().into_iter().map(|s| Box::new(s) as Box<dyn DynSub>).collect()
+  let mut v: Vec<Box<dyn DynSub>> = all_subs().into_iter().map(|s| Box::new(s) as Box<dyn DynSub>).collect();
+  v.push(Box::new(UnusualKeys));
+  v
 }
 
 pub fn run(ctx: &Ctx) -> EvidenceMeta {
@@ -197,13 +252,15 @@ pub fn run(ctx: &Ctx) -> EvidenceMeta {
       jobs.push(Box::new(move || ctx.prop(s, conf_case(s.proto), n)));
     }
   }
+  let uk = &UnusualKeys;
+  jobs.push(Box::new(move || ctx.enumerate(uk, (0..ctx.n(24, 200)).map(|i| UnusualKeyCase { which: (i % 2) as u8, msg_len: [0u32, 1, 69, 200, 255, 256, 257, 383, 384, 511, 512, 1000][(i as usize / 2) % 12], footer: i % 3 == 0 }), false)));
   run_jobs(jobs);
   EvidenceMeta {
     rule: "input space of C01/C02 at the core layer (version, purpose, key or key pair, nonce material, message incl. all boundary lengths, footer/assertion in {none, explicit empty, text}). \
            Oracle (differential against specref, an executable transcription of Version1-4.md + Common.md pinned to all 45 official vectors before every run): \
            local - library token == reference token byte for byte; library decrypts reference tokens built with an arbitrary wire nonce; reference decrypts library tokens; \
            public - reference verifies library tokens and library verifies reference tokens; Ed25519 tokens byte-identical; \
-           structure - footer segment present iff footer non-empty and equal to its unpadded base64url. \
+           structure - footer segment present iff footer non-empty and equal to its unpadded base64url; v1.public under RSA keys of 3072 / 4096 bits - signing is refused or the token is message || 256-byte signature that the reference verifies. \
            Non-trivial = beyond what the official vectors exercise: message non-empty and (>= 65 bytes or non-ASCII or footer/assertion non-empty); distinct by case."
       .into(),
     assumptions: vec![
